@@ -9,6 +9,7 @@ open Crng.Code
 /-- the option variables of `readDestination` -/
 structure DRec where
   connBufSize : Int := 30000
+  err : Err := none
   flush : Int := 1000
   ioBufSize : Int := 2000000
   notPrefix : Bytes := []
@@ -28,9 +29,9 @@ structure DRec where
   unspoolSleep : Int := 10 * 1000
 
 /-- the loop state of the regenerated function: its assigned variables in alphabetical order -/
-abbrev DTuple := Int × Int × Int × Bytes × Bytes × Bytes × Bool × Bytes × Int × Bytes × Scanner × Bool × Int × Int × Int × Int × Int × Bytes × TokV × Int
+abbrev DTuple := Int × Err × Int × Int × Bytes × Bytes × Bytes × Bool × Bytes × Int × Bytes × Scanner × Bool × Int × Int × Int × Int × Int × Bytes × TokV × Int
 def DRec.toTuple (d : DRec) (s : Scanner) (t : TokV) : DTuple :=
-  (d.connBufSize, d.flush, d.ioBufSize, d.notPrefix, d.notRegex, d.notSub, d.pickle, d.prefix_, d.reconn, d.regex, s, d.spool,
+  (d.connBufSize, d.err, d.flush, d.ioBufSize, d.notPrefix, d.notRegex, d.notSub, d.pickle, d.prefix_, d.reconn, d.regex, s, d.spool,
    d.spoolBufSize, d.spoolMaxBytesPerFile, d.spoolSleep, d.spoolSyncEvery, d.spoolSyncPeriod, d.sub, t, d.unspoolSleep)
 
 inductive OKind | word | num | bool deriving DecidableEq
@@ -54,11 +55,11 @@ converted to durations after the loop) -/
 def applyOpt (E : Env) (o : Token) (v : Bytes) (d : DRec) : Except Err DRec :=
   let num (f : Int → DRec) : Except Err DRec :=
     match E.strconv_Atoi (E.strings_TrimSpace v) with
-    | (n, none) => .ok (f n)
+    | (n, none) => .ok { (f n) with err := none }
     | (_, some e) => .error (some e)
   let bool (msg : String) (f : Bool → DRec) : Except Err DRec :=
     match E.strconv_ParseBool v with
-    | (b, none) => .ok (f b)
+    | (b, none) => .ok { (f b) with err := none }
     | (_, some _) => .error (some msg)
   match o with
   | .optPrefix => .ok { d with prefix_ := v } | .optNotPrefix => .ok { d with notPrefix := v }
@@ -105,15 +106,15 @@ def stepMap {σ τ ρ : Type} (f : σ → τ) : Step σ ρ → Step τ ρ
 
 def tupleStep (E : Env) (st : DTuple) : Step DTuple R :=
   match st with
-  | (connBufSize, flush, ioBufSize, notPrefix, notRegex, notSub, pickle, prefix_, reconn, regex, s, spool, spoolBufSize,
+  | (connBufSize, err, flush, ioBufSize, notPrefix, notRegex, notSub, pickle, prefix_, reconn, regex, s, spool, spoolBufSize,
      spoolMaxBytesPerFile, spoolSleep, spoolSyncEvery, spoolSyncPeriod, sub, _t, unspoolSleep) =>
     stepMap (fun (x : DRec × Scanner × TokV) => x.1.toTuple x.2.1 x.2.2)
-      (recStep E { connBufSize, flush, ioBufSize, notPrefix, notRegex, notSub, pickle, prefix_, reconn, regex, spool, spoolBufSize,
+      (recStep E { connBufSize, err, flush, ioBufSize, notPrefix, notRegex, notSub, pickle, prefix_, reconn, regex, spool, spoolBufSize,
                    spoolMaxBytesPerFile, spoolSleep, spoolSyncEvery, spoolSyncPeriod, sub, unspoolSleep } s)
 
 def tupleCond (st : DTuple) : Bool :=
   match st with
-  | (_, _, _, _, _, _, _, _, _, _, _, _, _, _, _, _, _, _, t, _) => (t.Token != toki_EOF) && (t.Token != Token.sep)
+  | (_, _, _, _, _, _, _, _, _, _, _, _, _, _, _, _, _, _, _, t, _) => (t.Token != toki_EOF) && (t.Token != Token.sep)
 
 /-- the option loop as structural recursion over the remaining tokens: options are read in pairs until `EOF` or the route
 separator; the first problem ends everything with an error -/
